@@ -96,7 +96,7 @@ def parseEv : List String → Option Ev
   | ["expire"] => some .expire
   | _ => none
 
-def cfg : Cfg := { fixed := LinVerif.Generated.C08.aheadFixed }
+def cfg : Cfg := { fixed := LinVerif.Generated.C08.aheadFixed, mfail := LinVerif.Generated.C08.mismatchSetsFailure }
 
 def step (s : St) (ws : List String) : St × String :=
   match ws with
